@@ -79,6 +79,7 @@ func (r *run) batteryScripts() [][]byte {
 	s = append(s, callScript(nativehashes.PolicyContract, "isBlocked", r.w.accounts[1]))
 	s = append(s, callScript(nativehashes.NeoToken, "getCandidates"))
 	s = append(s, callScript(nativehashes.NeoToken, "getCommittee"))
+	s = append(s, callScript(nativehashes.OracleContract, "getPrice"))
 	// (reads contract storage backwards from a start key)
 	for _, role := range []int64{4, 8, 16, 32} {
 		s = append(s, callScript(nativehashes.RoleManagement, "getDesignatedByRole", role, int64(r.P.BC.BlockHeight())))
